@@ -57,6 +57,14 @@ type Task struct {
 	done  bool
 	// Steps counts the scheduling points this task has passed.
 	Steps int
+	// Atomic makes the task skip its plain scheduling points (Yield): it is
+	// only descheduled where it blocks or ends.  Harnesses use it for tasks
+	// whose internal interleaving is explored by other scenarios, to keep a
+	// scenario with many tasks tractable; the bound is reported as such.
+	Atomic bool
+	// Only, if set, keeps just the plain scheduling points whose label it
+	// accepts.
+	Only func(label string) bool
 }
 
 type abortExec struct{}
@@ -481,6 +489,12 @@ func Replay(choices []int, setup func(s *Sched)) *Exec {
 // instrumented code (`-points`).  It is a no-op when running free.
 func Yield(label string) {
 	if s := Cur(); s != nil && s.cur != nil {
+		if s.cur.Atomic || (s.cur.Only != nil && !s.cur.Only(label)) {
+			// Plain scheduling points of an atomic task (or the ones its
+			// filter rejects) are skipped: it runs from one blocking
+			// operation to the next without preemption.
+			return
+		}
 		s.Point(label, nil)
 	}
 }
